@@ -1105,7 +1105,7 @@ class Collection(object):
             if field not in doc_copy:
                 if field in doc:
                     # field was not copied yet (since we are in include mode)
-                    doc_copy[field] = doc[field]
+                    doc_copy[field] = copy.deepcopy(doc[field])
                 else:
                     # field doesn't exist in original document, no work to do
                     continue
@@ -1205,7 +1205,7 @@ class Collection(object):
             doc_copy.pop('_id', None)
         else:
             if '_id' in doc:
-                doc_copy['_id'] = doc['_id']
+                doc_copy['_id'] = copy.deepcopy(doc['_id'])
 
         fields['_id'] = id_value  # put _id back in fields
 
